@@ -900,7 +900,12 @@ def select_ops(cfg):
     """the preferences that select a configuration, in the order a program sets them"""
     p = prefs_for(cfg)
     p.pop("TTS", None)
-    return [("set_preference", k, v) for k, v in p.items()]
+    ops = [("set_preference", k, v) for k, v in p.items()]
+    if cfg.get("via_auto"):
+        # the documented protocol of assistive technology that follows the language of the document: Language=Auto, then LanguageAuto=<tag>
+        i = [k for k, (_, n, _) in enumerate(ops) if n == "Language"][0]
+        ops[i:i + 1] = [("set_preference", "Language", "Auto"), ("set_preference", "LanguageAuto", cfg["lang"])]
+    return ops
 
 
 def switch_compare(probes, got, ref):
@@ -1095,6 +1100,11 @@ def switch_chains(seed, n_chains, length):
             part = steps[off:off + length]
             if len(part) >= 2 and len(chains) < n_chains:
                 chains.append(part)
+                if len(chains) % 4 == 3 and len(chains) < n_chains and len(part) >= 3:
+                    # a chain that comes BACK to a language, selecting it through Language=Auto / LanguageAuto before and after a fixed one
+                    x, y, z = [dict(c) for c in part[:3]]
+                    back = dict(x, verbosity=rng.choice(VERBOSITIES), braille=z["braille"], via_auto=True)
+                    chains.append([dict(x, via_auto=True), y, back, dict(z, via_auto=rng.random() < 0.5), dict(y, braille=x["braille"])][:max(3, length)])
     return chains
 
 
